@@ -1,4 +1,4 @@
-\* thorough exported instance: election at height 3, two blocks after it
+\* thorough, second exported instance: an election at every second height (2 and 4): the second election starts from an elected list
 SPECIFICATION Spec
 CONSTANTS
   Cand = {"x", "y", "w"}
@@ -6,9 +6,9 @@ CONSTANTS
   Other = {"z"}
   MaxScore = 500
   InitScore <- InitXYW
-  MaxH = 5
-  EvBound <- EvExportBig
-  VotePeriod = 3
+  MaxH = 4
+  EvBound <- EvExport
+  VotePeriod = 2
   Pledge <- PledgeXYW
   InitDeposit = 1
   Seeds = {"s1", "s2", "s3"}
